@@ -102,7 +102,10 @@ def build(spec, hashes=None, chashes=None, fresh_strings=False, plain=False):
         for k in cs.get("children", []):
             comps[i].append_child_component(comps[k])
         for k in cs.get("tasks", []):
-            comps[i].append_targeted_task(tasks[k])
+            if spec.get("comp_wiring") == "ctor":
+                comps[i].targeted_task_list.append(tasks[k])   # what BaseComponent(targeted_task_list=[...]) does: task.target_component stays None
+            else:
+                comps[i].append_targeted_task(tasks[k])
     product = BaseProduct(component_list=comps)
 
     wid = 0
@@ -146,7 +149,10 @@ def build(spec, hashes=None, chashes=None, fresh_strings=False, plain=False):
         wps.append(wp)
     for i, ps in enumerate(spec.get("workplaces", [])):
         for k in ps.get("inputs", []):
-            wps[i].append_input_workplace(wps[k])
+            if spec.get("wp_wiring") == "ctor":
+                wps[i].input_workplace_list.append(wps[k])     # the upstream workplace does not list it as an output
+            else:
+                wps[i].append_input_workplace(wps[k])
     org = BaseOrganization(team_list=teams, workplace_list=wps)
     for i, ts in enumerate(spec["tasks"]):
         if ts.get("wps_order") is not None:     # the task's own preference order of its workplaces
